@@ -16,6 +16,8 @@ type verifLife struct {
 	ids      map[*Conn]int
 	accepted []*Conn // connections a client holds (initially accepted + those returned during the phase)
 	closedBy map[int]bool
+	accIdx   map[int]int // acceptor thread -> index in accepted of the connection it returned
+	resConn  map[int]*Conn
 	names    []string
 	roles    []string
 	results  []string
@@ -87,6 +89,15 @@ func (v *verifLife) noteConn(rm *net.UDPAddr) {
 	}
 }
 
+// canStart says whether a closer of an accepted-during-the-phase connection may leave its start point.
+func (v *verifLife) canStart(i int) bool {
+	if !strings.HasPrefix(v.roles[i], "K") || v.pcOf(i) != "S" {
+		return true
+	}
+	_, ok := v.accIdx[vh.Atoi(v.roles[i][1:])]
+	return ok
+}
+
 // pcOf is the position letter of thread i as printed by line().
 func (v *verifLife) pcOf(i int) string {
 	f := strings.Fields(v.line())
@@ -120,6 +131,9 @@ func (v *verifLife) line() string {
 		switch {
 		case p.State == "done":
 			pcs[i] = v.results[i]
+			if c := v.resConn[i]; c != nil {
+				pcs[i] = fmt.Sprintf("c%d", v.ids[c])
+			}
 		case p.State == "at start":
 			pcs[i] = "S"
 		case strings.Contains(p.State, ":select#"):
@@ -162,7 +176,7 @@ func verifLifeRun(o *vh.Out, id string, cfg []string, sched []string, r *vh.Rng)
 	if err != nil {
 		panic(err)
 	}
-	v := &verifLife{ln: ln.(*listener), ids: map[*Conn]int{}, closedBy: map[int]bool{}, roles: roles, backlog: backlog} //nolint:forcetypeassert
+	v := &verifLife{ln: ln.(*listener), ids: map[*Conn]int{}, closedBy: map[int]bool{}, accIdx: map[int]int{}, resConn: map[int]*Conn{}, roles: roles, backlog: backlog} //nolint:forcetypeassert
 	for i := 0; i < nAcc+nQ; i++ {
 		v.arrive()
 	}
@@ -186,11 +200,26 @@ func verifLifeRun(o *vh.Out, id string, cfg []string, sched []string, r *vh.Rng)
 				}
 				cc := c.(*Conn) //nolint:forcetypeassert
 				v.accepted = append(v.accepted, cc)
-				v.results[i] = fmt.Sprintf("c%d", v.ids[cc])
+				v.accIdx[i] = len(v.accepted) - 1
+				v.resConn[i] = cc
+				v.results[i] = "conn" // the id is looked up when the line is printed (it is assigned after the arrival ends)
 			}))
 		case role == "L":
 			v.names = append(v.names, cosched.Go("l", func() {
 				_ = ln.Close()
+				v.results[i] = "ok"
+			}))
+		case strings.HasPrefix(role, "K"):
+			// the client closes the connection that acceptor thread a returned (scheduled only once it has one)
+			a := vh.Atoi(role[1:])
+			v.names = append(v.names, cosched.Go("k", func() {
+				k, ok := v.accIdx[a]
+				if !ok {
+					v.results[i] = "ok"
+					return
+				}
+				v.closedBy[k] = true
+				_ = v.accepted[k].Close()
 				v.results[i] = "ok"
 			}))
 		default:
@@ -218,10 +247,13 @@ func verifLifeRun(o *vh.Out, id string, cfg []string, sched []string, r *vh.Rng)
 				best := len(v.names)
 				for _, nm := range ay {
 					for i, x := range v.names {
-						if x == nm && i < best {
+						if x == nm && i < best && v.canStart(i) {
 							best = i
 						}
 					}
+				}
+				if best == len(v.names) {
+					break
 				}
 				op = fmt.Sprintf("g %d", best)
 			} else {
@@ -233,7 +265,7 @@ func verifLifeRun(o *vh.Out, id string, cfg []string, sched []string, r *vh.Rng)
 			var cand []int
 			for _, nm := range ay {
 				for i, x := range v.names {
-					if x == nm && !(v.arrName != "" && v.pcOf(i) == "L") {
+					if x == nm && !(v.arrName != "" && v.pcOf(i) == "L") && v.canStart(i) {
 						cand = append(cand, i)
 					}
 				}
@@ -278,6 +310,9 @@ func verifLifeRun(o *vh.Out, id string, cfg []string, sched []string, r *vh.Rng)
 					}
 				}
 			}
+			if ok && !v.canStart(t) {
+				ok = false
+			}
 			if ok {
 				ambiguous := v.roles[t] == "A" && len(v.ln.acceptCh) > 0 && v.results[t] == ""
 				cosched.Step(v.names[t], 2*time.Second)
@@ -298,8 +333,14 @@ func verifLifeRun(o *vh.Out, id string, cfg []string, sched []string, r *vh.Rng)
 	}
 	pending := 0
 	for _, p := range cosched.Positions() {
+		idle := false
+		for i, nm := range v.names {
+			if nm == p.Name && p.State == "at start" && !v.canStart(i) {
+				idle = true // closer of a connection that was never accepted
+			}
+		}
 		// an Accept with nothing to accept on an open listener waits legitimately
-		if p.State != "done" && !(p.State == "parked select" && lclosed == 0) {
+		if p.State != "done" && !idle && !(p.State == "parked select" && lclosed == 0) {
 			pending++
 		}
 	}
@@ -333,8 +374,15 @@ func TestVerifLife(t *testing.T) {
 			if vh.Atoi(cfg[2]) < nAcc+nQ {
 				cfg[2] = "128"
 			}
-			for k := r.Intn(3); k > 0; k-- {
+			nA := r.Intn(3)
+			for k := 0; k < nA; k++ {
 				cfg = append(cfg, "A")
+			}
+			var ks []string
+			for k := 0; k < nA; k++ {
+				if r.Chance(50) {
+					ks = append(ks, fmt.Sprintf("K%d", k))
+				}
 			}
 			if r.Chance(75) {
 				cfg = append(cfg, "L")
@@ -344,6 +392,7 @@ func TestVerifLife(t *testing.T) {
 					cfg = append(cfg, fmt.Sprintf("C%d", k))
 				}
 			}
+			cfg = append(cfg, ks...)
 			if len(cfg) == 3 {
 				cfg = append(cfg, "L")
 			}
